@@ -534,7 +534,13 @@ func (p stProp) Gen(r *Rand, idx int, tier string) Sx {
 				}
 			}
 			if len(big) > 0 {
-				for k := 1 + r.Intn(4); k > 0; k-- {
+				burst := 1 + r.Intn(4)
+				if r.Chance(30) {
+					// a full turn of the block list and one more allocation: the parked reader's or
+					// writer's block is released and its space handed out again under it
+					burst = old + cur + nw + 1 + r.Intn(2)
+				}
+				for k := burst; k > 0; k-- {
 					o := big[r.Intn(len(big))]
 					tid := nextTid
 					nextTid++
